@@ -23,7 +23,12 @@ def generate(rng, tier, idx):
     path = kit.path
     have_good = rng.random() < 0.75
     if have_good:
-        ops.append(kit.dump_op(K, rng))
+        d = kit.dump_op(K, rng)
+        d.pop("to", None)
+        ops.append(d)
+        if rng.random() < 0.4:
+            # the object whose later dumps are refused was LOADED from the good copy (not built through the API)
+            ops.append({"op": "restart", "path": path, "via": pick(rng, ["path", "handle", "loads"]), "offset": rng.randint(0, 500)})
         ops.append(kit.mutation(K, rng))
     enum = {"op": "c18_enum", "path": path, "cap": 64 if tier == "quick" else None}
     mv = kit.dump_op(K, rng, main_variant="random").get("main_variant")     # TreeInfo.dump has its own main_variant path
